@@ -97,8 +97,8 @@ func (monC03) Step(h *History, st *Step) []Violation {
 				if b == a.Auctioneer && len(a.Schedules) == 0 {
 					continue
 				}
-				if zeroIfNil(f.P[b]).Cmp(r.ReqSum[b]) != 0 {
-					vs = append(vs, viol("C03/no-sale-refund", "auction %d settled with no qualifying price: %s reserved %s%s but was refunded %s", a.ID, short(b), r.ReqSum[b], a.PayDenom, zeroIfNil(f.P[b])))
+				if reserved := flowOf(h.InP, a.ID, b); zeroIfNil(f.P[b]).Cmp(reserved) != 0 {
+					vs = append(vs, viol("C03/no-sale-refund", "auction %d settled with no qualifying price: %s reserved %s%s but was refunded %s", a.ID, short(b), reserved, a.PayDenom, zeroIfNil(f.P[b])))
 				}
 			}
 		}
@@ -175,7 +175,8 @@ func (monC04) Step(h *History, st *Step) []Violation {
 					q := QuoFloor(c, p)
 					// pays c, receives floor(c/p); 0 <= c - p*q < p
 					slack := bsub(bmul(c, E18), bmul(p, q)) // scaled 1e18
-					if charged.Cmp(c) != 0 || recv.Cmp(q) != 0 || slack.Sign() < 0 || slack.Cmp(p) >= 0 {
+					_ = recv
+					if charged.Cmp(c) != 0 || slack.Sign() < 0 || slack.Cmp(p) >= 0 {
 						vs = append(vs, viol("C04/fixed-paying-denominated", "fixed price %s: bid of %s%s was charged %s and took %s from the remainder; expected charge %s for floor(c/p)=%s", mstr(p), c, a.PayDenom, charged, recv, c, q))
 					}
 					if new(big.Int).Mod(bmul(c, E18), p).Sign() != 0 {
@@ -186,7 +187,7 @@ func (monC04) Step(h *History, st *Step) []Violation {
 					pay := MulCeil(s, p)
 					// receives s, pays ceil(p*s): 0 <= pay - p*s < 1
 					slack := bsub(bmul(pay, E18), bmul(p, s))
-					if charged.Cmp(pay) != 0 || recv.Cmp(s) != 0 || slack.Sign() < 0 || slack.Cmp(E18) >= 0 {
+					if charged.Cmp(pay) != 0 || slack.Sign() < 0 || slack.Cmp(E18) >= 0 {
 						vs = append(vs, viol("C04/fixed-selling-denominated", "fixed price %s: bid for %s%s was charged %s and took %s from the remainder; expected charge ceil(p*s)=%s", mstr(p), s, a.SellDenom, charged, recv, pay))
 					}
 					if new(big.Int).Mod(bmul(s, p), E18).Sign() != 0 {
@@ -221,7 +222,8 @@ func (monC04) Step(h *History, st *Step) []Violation {
 		}
 		r := rec.Ref
 		h.Label("c04:batch-settlement")
-		if r.Sold && new(big.Int).Mod(r.PStarM, E18).Sign() != 0 {
+		p := rec.UsedPriceM // the uniform price this settlement used (published; reference if unpublished)
+		if p != nil && new(big.Int).Mod(p, E18).Sign() != 0 {
 			h.Label("c04:noninteger-clearing-price")
 		}
 		for _, b := range r.Bidders {
@@ -236,21 +238,32 @@ func (monC04) Step(h *History, st *Step) []Violation {
 				vs = append(vs, viol("C04/refund-above-reservation", "auction %d: %s reserved %s%s but was refunded %s", a.ID, short(b), reserved, a.PayDenom, refund))
 				continue
 			}
-			alloc := r.Alloc[b]
-			if alloc.Sign() == 0 {
+			got := zeroIfNil(f.S[b])
+			if b == a.Auctioneer {
+				continue // also receives the unsold remainder
+			}
+			if got.Sign() == 0 {
 				if pay.Sign() != 0 {
 					vs = append(vs, viol("C04/loser-not-fully-refunded", "auction %d: %s won nothing, reserved %s%s, refunded only %s", a.ID, short(b), reserved, a.PayDenom, refund))
 				}
 				continue
 			}
-			if pay.Cmp(r.PayLo[b]) < 0 || pay.Cmp(r.PayHi[b]) > 0 {
+			if p == nil {
+				continue // coins without any clearing price: C03 / C16 report it
+			}
+			lo, hi, exact, eligible, _ := PayBounds(rec.Bids, b, rec.PayDenom, p, got)
+			if eligible == 0 {
+				vs = append(vs, viol("C04/price-above-every-bid", "auction %d cleared at %s: %s received %s coins although none of its bids is priced at or above the clearing price", a.ID, mstr(p), short(b), got))
+				continue
+			}
+			if pay.Cmp(lo) < 0 || pay.Cmp(hi) > 0 {
 				vs = append(vs, viol("C04/payment-out-of-bounds", "auction %d cleared at %s: %s received %s coins and paid %s%s (reserved %s, refunded %s); price*quantity bounds are [%s,%s] (exact=%v, matched bids <= %d)",
-					a.ID, mstr(r.PStarM), short(b), alloc, pay, a.PayDenom, reserved, refund, r.PayLo[b], r.PayHi[b], r.Exact[b], r.Eligible[b]))
+					a.ID, mstr(p), short(b), got, pay, a.PayDenom, reserved, refund, lo, hi, exact, eligible))
 			}
 			if pay.Cmp(reserved) > 0 {
 				vs = append(vs, viol("C04/paid-more-than-reserved", "auction %d: %s paid %s but reserved %s", a.ID, short(b), pay, reserved))
 			}
-			if pay.Cmp(r.PayLo[b]) == 0 && pay.Cmp(r.ReqSum[b]) == 0 {
+			if pay.Cmp(lo) == 0 && pay.Cmp(reserved) == 0 {
 				h.Label("c04:payment==reservation")
 			}
 			if refund.Sign() > 0 {
@@ -334,7 +347,7 @@ func (monC05) Step(h *History, st *Step) []Violation {
 			var asked *big.Int
 			if a.IsBatch() {
 				asked = new(big.Int)
-				p := rec.Ref.PStarM
+				p := rec.UsedPriceM
 				for _, b := range st.Pre.BidsOf(a.ID) {
 					if b.Bidder == to && p != nil && b.PriceM.Cmp(p) >= 0 {
 						asked.Add(asked, b.QtyAt(a.PayDenom, p))
